@@ -37,6 +37,9 @@ pub fn command(t: &TestSpec, log: &str) -> String {
     match t.trap_term {
         1 => c.push_str("; trap '' TERM"),
         2 => c.push_str("; trap 'echo cleanup' TERM"),
+        // the command gives up its output streams and keeps running
+        3 => c.push_str("; exec >&- 2>&-"),
+        4 => c.push_str("; exec >/dev/null 2>&1"),
         _ => {}
     }
     if t.sleep_ms > 0 {
